@@ -36,7 +36,7 @@ const hookAdmit = "serverConn.connect:after-nsp-add"
 
 type leak struct {
 	where, own, tag string
-	uid            int
+	uid             int
 }
 
 type recorder struct {
@@ -203,6 +203,47 @@ func runGoProgram(run *vk.Run, r *rand.Rand, nsps []string, shared bool, delays 
 		run.Violation(vk.Violation{Sub: "ack-lost", Fields: fields, What: fmt.Sprintf("acks outstanding after 30 s with namespaces %q", nsps), Witness: wit})
 		return
 	}
+	// concurrent traffic: one emitting goroutine per namespace and side, all at once. The namespaces of a shared
+	// manager share one connection, one parser and one packet queue: what is emitted in a namespace must
+	// still arrive in that namespace (the recorder flags any payload whose tag names another one).
+	if len(nsps) > 1 {
+		burst := 300
+		var cwg sync.WaitGroup
+		for _, name := range nsps {
+			name := name
+			smu.Lock()
+			ss := srvSocks[name]
+			smu.Unlock()
+			cs := socks[name]
+			cwg.Add(2)
+			go func() {
+				defer cwg.Done()
+				for i := 0; i < burst; i++ {
+					cs.Emit("m", name, 100000+i)
+				}
+			}()
+			go func() {
+				defer cwg.Done()
+				for i := 0; i < burst; i++ {
+					ss.Emit("m", name, 200000+i)
+				}
+			}()
+		}
+		cwg.Wait()
+		// fence per namespace and direction
+		for _, name := range nsps {
+			done := make(chan int, 1)
+			socks[name].Emit("probe", 1, func(n int) { done <- n })
+			select {
+			case <-done:
+			case <-time.After(20 * time.Second):
+				run.Violation(vk.Violation{Sub: "collateral-disconnect", Fields: fields,
+					What: fmt.Sprintf("after concurrent traffic on %d namespaces, namespace %q no longer answers (set %q)", len(nsps), name, nsps), Witness: wit})
+				return
+			}
+		}
+		run.Count("concurrent_payloads_emitted", int64(2*burst*len(nsps)))
+	}
 	// disconnect one namespace; the others must stay connected and usable
 	victim := nsps[r.Intn(len(nsps))]
 	if r.Intn(2) == 0 {
@@ -327,6 +368,81 @@ func runRawInvalid(run *vk.Run, kind string, transport string) {
 	run.Distinct("raw/" + kind + "/" + transport)
 }
 
+// runRawRejoin: VALID back-to-back sequences on a multiplexed connection must not hurt the other namespaces.
+// The peer has joined /a and /ab; it leaves /a and joins it again in two packets sent together (one polling
+// payload / two consecutive websocket frames), several times. Afterwards /a (the new socket) and /ab must
+// both answer, and the connection must still be open.
+func runRawRejoin(run *vk.Run, transport string, rounds int) {
+	run.Eval(1)
+	srv, err := rig.NewServer(nil, "")
+	if err != nil {
+		run.Inconclusive(err.Error())
+		return
+	}
+	defer srv.Close()
+	var disc sync.Map
+	for _, name := range []string{"/a", "/ab"} {
+		name := name
+		srv.IO.Of(name).OnConnection(func(s sio.ServerSocket) {
+			s.OnEvent("ok", func(n int, ack func(int)) { ack(n) })
+			s.OnDisconnect(func(r sio.Reason) { disc.Store(name+":"+string(s.ID()), string(r)) })
+		})
+	}
+	peer, err := rawpeer.DialSIO(srv.URL, transport)
+	if err != nil {
+		run.Inconclusive(err.Error())
+		return
+	}
+	defer peer.C.Abort()
+	for _, name := range []string{"/a", "/ab"} {
+		if res, err := peer.Connect(name, nil, 30*time.Second); err != nil || !res.OK {
+			run.Inconclusive(fmt.Sprintf("raw connect %s: %v", name, err))
+			return
+		}
+	}
+	fields := map[string]any{"kind": "disconnect-then-connect-same-namespace", "transport": transport}
+	probe := func(nsp string, id uint64) bool {
+		peer.Emit(nsp, &id, "ok", json.Number(fmt.Sprint(id)))
+		_, _, err := peer.WaitPacket(0, 15*time.Second, func(p *refcodec.Packet) bool {
+			return p.Type == refcodec.Ack && p.Namespace == nsp && p.ID != nil && *p.ID == id
+		})
+		return err == nil
+	}
+	for round := 0; round < rounds; round++ {
+		from := len(peer.Packets())
+		f1, _ := refcodec.EncodeSIO(&refcodec.Packet{Type: refcodec.Disconnect, Namespace: "/a"})
+		f2, _ := refcodec.EncodeSIO(&refcodec.Packet{Type: refcodec.Connect, Namespace: "/a"})
+		peer.C.SendFrames(append(f1, f2...))
+		wit := map[string]any{"transport": transport, "round": round, "sent_together": []string{string(f1[0]), string(f2[0])}}
+		_, _, err := peer.WaitPacket(from, 15*time.Second, func(p *refcodec.Packet) bool {
+			return (p.Type == refcodec.Connect || p.Type == refcodec.ConnectError) && p.Namespace == "/a"
+		})
+		if err != nil || peer.C.IsClosed() {
+			wit["peer_close_reason"] = peer.C.CloseReason()
+			run.Violation(vk.Violation{Sub: "collateral-disconnect", Fields: fields,
+				What:    fmt.Sprintf("DISCONNECT /a directly followed by CONNECT /a (both valid) on a connection that also carries /ab: no CONNECT reply for /a (%v), connection closed=%v [%s, round %d]", err, peer.C.IsClosed(), transport, round),
+				Witness: wit})
+			return
+		}
+		if !probe("/ab", uint64(1000+round)) || !probe("/a", uint64(2000+round)) {
+			run.Violation(vk.Violation{Sub: "collateral-disconnect", Fields: fields,
+				What: fmt.Sprintf("after DISCONNECT /a + CONNECT /a sent together, /a or /ab no longer answers [%s, round %d]", transport, round), Witness: wit})
+			return
+		}
+	}
+	n := 0
+	disc.Range(func(k, v any) bool {
+		if strings.HasPrefix(k.(string), "/ab:") {
+			n++
+		}
+		return true
+	})
+	if n > 0 {
+		run.Violation(vk.Violation{Sub: "collateral-disconnect", Fields: fields, What: fmt.Sprintf("leaving and re-joining /a disconnected /ab (%d disconnect events)", n), Witness: map[string]any{"transport": transport}})
+	}
+	run.Distinct("raw/rejoin/" + transport)
+}
+
 // a compliant client that answers the CONNECT reply immediately must not hit "invalid state"
 func runAdmissionWindow(run *vk.Run, transport string, widen time.Duration, rounds int) {
 	srv, err := rig.NewServer(nil, "")
@@ -382,7 +498,7 @@ func runAdmissionWindow(run *vk.Run, transport string, widen time.Duration, roun
 func main() {
 	run := vk.Start("C05", "exploration")
 	run.Rule("Go programs: namespace sets of size 1..4 drawn from 11 look-alike names (prefixes of one another, '' vs '/', digits, spaces, unicode, '?'), multiplexed on one Manager or on separate Managers, CONNECT reply order permuted by middleware delays, " +
-		"40 interleaved steps {emit c->s, emit s->c, ack c->s, ack s->c, namespace broadcast} then a single-namespace disconnect and probes on the others; raw peer: 8 invalid packet kinds x transports; admission window with hook H4; " +
+		"40 interleaved steps {emit c->s, emit s->c, ack c->s, ack s->c, namespace broadcast} then a single-namespace disconnect and probes on the others; raw peer: 8 invalid packet kinds x transports; DISCONNECT + CONNECT of one namespace sent together on a connection carrying another one; concurrent bursts on all namespaces of a program; admission window with hook H4; " +
 		"distinct = (client kind, shared connection?, namespace set)")
 	run.Assume("every payload carries its namespace tag; the oracle is set membership on the recorded log")
 	r := run.Rand("c05")
@@ -417,6 +533,9 @@ func main() {
 		}()
 	}
 	wg.Wait()
+	for _, tr := range []string{"websocket", "polling"} {
+		runRawRejoin(run, tr, run.Pick(10, 60))
+	}
 	for _, tr := range []string{"websocket", "polling"} {
 		for _, kind := range []string{"event-unjoined-root", "event-unjoined-prefix", "event-unknown-namespace", "ack-unjoined", "disconnect-unjoined", "event-while-connect-parked", "connect-error-from-client", "connect-twice"} {
 			wg.Add(1)
